@@ -425,6 +425,26 @@ func hostExtractionShape(fn *ssa.Function) (bool, string) {
 	if l == nil || len(loops) != 1 {
 		return false, "host extraction is not a single range loop"
 	}
+	// no path hands the parsed list back as it is (the SRV form resolves to target:port entries)
+	rawReturn := ""
+	allInstrs(fn, func(i ssa.Instruction) {
+		ret, ok := i.(*ssa.Return)
+		if !ok || len(ret.Results) == 0 {
+			return
+		}
+		for _, vs := range sourcesAt(ret.Results[0], ret.Block()) {
+			if ld, ok := peel(vs.Val).(*ssa.UnOp); ok {
+				if fa, ok := ld.X.(*ssa.FieldAddr); ok {
+					if _, fv := fieldOf(fa); fv != nil && fv.Name() == "Hosts" {
+						rawReturn = "the parsed host list is returned as it is on one path (host:port entries of an SRV connection string keep their ports)"
+					}
+				}
+			}
+		}
+	})
+	if rawReturn != "" {
+		return false, rawReturn
+	}
 	// collection: cs.Hosts
 	collOK := false
 	if ld, ok := l.Coll.(*ssa.UnOp); ok {
